@@ -496,6 +496,11 @@ def r_tight(ctx, rep):
                 src, pats = node["init"], [node["pat"]]
             elif node.get("k") == "Match" and node.get("src") != "TryDesugar":
                 src, pats = node["scrut"], [a["pat"] for a in node["arms"]]
+            if src is not None and path_local(src):
+                from .kit import let_init
+                li_ = let_init(fn.body, src)     # `let first_pos = cells.first().map(|c| c.pos); if let Some((r, c)) = first_pos`
+                if li_ is not None:
+                    src = li_["init"]
             if src is None or not any(f.get("k") == "Field" and f.get("name") == "pos" for f in walk(src)):
                 continue
             for p_ in pats:
@@ -506,7 +511,7 @@ def r_tight(ctx, rep):
         def is_row(e):
             return _is_pos_row(e) or (path_local(e) and path_local(e)[1] in row_locals)
         from .kit import reach_conds
-        for x in [{"cond": ce} for ce in reach_conds(n, anc)]:
+        for x in [{"cond": ce} for ce in reach_conds(n, anc, fn.body)]:
             if True:
                 for c in (b for ce in cond_exprs(fn.body, x["cond"]) for b in walk_k(ce, "Binary")):
                     if c["op"] == "!=" and ((is_row(c["l"]) and path_local(c["r"]) and path_local(c["r"])[1] in lids) or (is_row(c["r"]) and path_local(c["l"]) and path_local(c["l"])[1] in lids)):
